@@ -33,7 +33,7 @@ fi
 # 4. the checks
 cd $V
 RES=""
-for p in $(python3 -c "import json;print(' '.join(c['property_id'] for c in json.load(open('MANIFEST.json'))['checks']))"); do
+for p in ${PROPS:-$(python3 -c "import json;print(' '.join(c['property_id'] for c in json.load(open('MANIFEST.json'))['checks']))")}; do
   VX_REPO=$WT VX_BUILD=$B timeout 3000 ./check $p --tier ${TIER:-quick} > "$B.$p.log" 2>&1; rc=$?
   RES="$RES $p=$rc"
   if [ $rc -ne 0 ]; then grep -E "^(failed obligation|VIOLATION|UNDECIDED|KNOWN)" "$B.$p.log" | head -4 | sed "s/^/   [$p] /"; fi
@@ -48,6 +48,10 @@ meta={"name":name,"breaks_property":prop,"confirmed":{"demo_passes_on_original":
  "check_exit_codes":r,"detected_by":[k for k,v in r.items() if v==1],"undecided":[k for k,v in r.items() if v==2]}
 p=V+'/seeded/%s/meta.json'%name
 old=json.load(open(p)) if os.path.exists(p) else {}
+# a run restricted to some properties (PROPS=...) refreshes those and keeps the earlier results of the others
+codes=dict(old.get("check_exit_codes",{})); codes.update(r); meta["check_exit_codes"]=codes
+meta["detected_by"]=[k for k,v in sorted(codes.items()) if v==1]; meta["undecided"]=[k for k,v in sorted(codes.items()) if v==2]
+meta["last_run_covered"]=sorted(r)
 old.update(meta); json.dump(old,open(p,'w'),indent=1)
 PY
 git -C /repo worktree remove --force "$WT"; rm -rf "$B" "$B".*.log 2>/dev/null
